@@ -444,6 +444,19 @@ def module_fn(ex, st, mod, attr, e, cx, k):
                 return k(st, SV(ty, T.sort_of(ty).mk(a, b)))
             return k(st, SV(STR, ex.uf(f'path_{attr}{len(zs)}', *([z3.StringSort()] * len(zs)), z3.StringSort())(*zs)))
         return ex.ev_list(st, args, cx, f)
+    if mod in ('os', 'shutil') and attr in ('remove', 'unlink', 'rename', 'replace', 'rmdir', 'removedirs', 'truncate',
+                                            'rmtree', 'move'):
+        # deleting / replacing a file is a write to the file system; no contract in this repository lists the file
+        # system in its frame, so the call must be unreachable (frame obligation, refuted when the path is feasible)
+        c_ = cx.contract if cx is not None else None
+        if c_ is not None and getattr(c_, 'destroys_files', False):
+            return ex.ev_list(st, args, cx, lambda s_, vs: k(s_, NONE_SV))
+
+        def fdel(st, vs):
+            ex.oblige(st, ex.site(cx, e, f'frame[filesystem]:{mod}.{attr}'), z3.BoolVal(False), 'frame',
+                      dict(clause=f'{mod}.{attr}(...) deletes or replaces a file: not in the frame of any contract'))
+            return k(st, NONE_SV)
+        return ex.ev_list(st, args, cx, fdel)
     if mod == 'os' or mod.startswith('os.'):
         raise VCError(f'os function {attr} needs an assumed contract')
     raise VCError(f'module function {mod}.{attr} outside subset')
